@@ -220,6 +220,8 @@ var mutantCatalogue = map[string][]mutant{
 		{Name: "L3 dirty flag keyed by the L1 alignment", File: "proc/mvp8-0/cc.go", Old: "\tl3Addr := getL3AlignedMemoryAddress([]int32{int32(l1Addr)})\n\tcc.msi.l3WriteNotify(l3Addr)", New: "\tl3Addr := getL1AlignedMemoryAddress([]int32{int32(l1Addr)})\n\tcc.msi.l3WriteNotify(l3Addr)"},
 	},
 	"C06": {
+		{Name: "a read takes the write lock", File: "proc/mvp8-0/cc.go", Old: "resp, post, sem := cc.msi.l1RLock(cc.id, r.addrs)", New: "resp, post, sem := cc.msi.l1Lock(cc.id, r.addrs)"},
+		{Name: "an L1 command built by the L3 constructor", File: "proc/mvp8-0/msi.go", Old: "pendings = append(pendings, m.sendNewL1MSICommand(e.id, alignedAddr, l1Evict))", New: "pendings = append(pendings, m.sendNewL3MSICommand(e.id, alignedAddr, l1Evict))"},
 		{Name: "a Modified line displaced by a plain evict", File: "proc/mvp7-1/msi.go", Old: "\t\treturn m.sendNewMSICommand(id, alignedAddr, writeBack)\n\tdefault:\n\t\treturn nil", New: "\t\treturn m.sendNewMSICommand(id, alignedAddr, evict)\n\tdefault:\n\t\treturn nil"},
 		{Name: "L3 line lock keyed at the L1 line size", File: "proc/mvp8-0/msi.go", Old: "\taddr := getL3AlignedMemoryAddress(addrs)\n", New: "\taddr := getL1AlignedMemoryAddress(addrs)\n"},
 		{Name: "L1 insertion guarded by an L3 presence test", File: "proc/mvp8-0/cc.go", Old: "if cc.isAddressInL1([]int32{int32(addr)}) {", New: "if cc.isAddressInL3([]int32{int32(addr)}) {"},
